@@ -14,7 +14,7 @@
    consumer i sees now; [own_view i log c0]: c0 transformed by i's own successful writes only. *)
 From Verif Require Import Common.Base C06.Model C06.Proofs C06.Proofs2 C06.TreeModel C06.TreeProofs.
 From Coq Require Import Permutation.
-From Verif Require Generated.C06FanCap Generated.C06CapWrap C06.Translated.
+From Verif Require Generated.C06FanCap Generated.C06CapWrap C06.Translated C06.SessionProofs C06.Clauses C06.ClausesProofs.
 
 (* ---- every consumer is invoked, exactly once, whatever earlier consumers returned -------------- *)
 (* The consumers called so far are a prefix of the fixed call order, one per LCall label ... *)
@@ -222,6 +222,25 @@ Theorem graph_noninterference_general : forall x c s,
 Proof. exact graph_noninterference_general_l. Qed.
 Print Assumptions graph_noninterference_general.
 
+(* "A pipeline advertises itself as mutating exactly when ... may mutate it", read SEMANTICALLY on the whole graph:
+   proved direction (full strength: every pipeline / exporter of the built shape, every store, every mutable cell):
+   whatever changes the payload it is given advertises MutatesData ... *)
+Theorem pipeline_advertises_if_it_mutates_partial : forall x c s,
+  (is_pipeline x = true \/ is_exporter x = true) -> c < List.length s -> cro (get s c) = false ->
+  cont (get (fst (trun x c s)) c) <> cont (get s c) -> ccap x = true.
+Proof. exact advertises_if_mutates_l. Qed.
+Print Assumptions pipeline_advertises_if_it_mutates_partial.
+
+(* ... the converse is refuted: aggregateCap makes a pipeline behind a non-mutating connector advertise mutation
+   although nothing ever writes its payload (a conservative over-approximation: it costs a copy, never isolation).
+   The witness is replayed on the implementation on every run (graph harness, first case). *)
+Theorem pipeline_advertises_only_if_it_mutates_refuted :
+  exists x, is_pipeline x = true /\ ccap x = true /\
+            cont (get (fst (trun x 0 [mkCell [] false])) 0) = cont (get [mkCell [] false] 0) /\
+            panics (snd (trun x 0 [mkCell [] false])) = [].
+Proof. exact advertises_only_if_mutates_refuted_l. Qed.
+Print Assumptions pipeline_advertises_only_if_it_mutates_refuted.
+
 (* ---- obligations against the translated source (translator T1, regenerated on every run) ---------- *)
 (* xConsumer.Capabilities as written NOW in logs.go / metrics.go / traces.go / profiles.go (Generated/C06FanCap.v)
    equals the model's fan_cap on the whole domain *)
@@ -243,3 +262,54 @@ Theorem cap_wrappers_only_override_capabilities :
   C06CapWrap.capProfiles_methods = ["Capabilities"; "ConsumeProfiles"]%string.
 Proof. exact Translated.cap_wrappers_methods_l. Qed.
 Print Assumptions cap_wrappers_only_override_capabilities.
+
+(* ---- several deliveries through the same fan-out ---------------------------------------------------- *)
+(* A session: deliveries started at any time (also while earlier ones are in progress), each delivery's consumer
+   calls, and writes by a consumer on the payload it was handed in delivery d at ANY later point of the session
+   (a consumer that queues or batches the payload it owns and works on it after further deliveries).
+   The fan-out keeps no state between calls: the state of delivery d is the single-delivery run of its own
+   parameters on its own labels, whatever the other deliveries do ... *)
+Theorem fanout_deliveries_independent : forall f sls,
+  List.length (srun f sls) = List.length (SessionProofs.deliveries sls) /\
+  forall d ro c0, nth_error (SessionProofs.deliveries sls) d = Some (ro, c0) ->
+                  nth_error (srun f sls) d = Some (run f ro c0 (SessionProofs.steps_for d 0 sls)).
+Proof. exact SessionProofs.session_independent_l. Qed.
+Print Assumptions fanout_deliveries_independent.
+
+(* ... so every theorem above holds for every delivery of every session.  In particular: what a consumer holds
+   from delivery d is the content sent in delivery d changed by its own writes on THAT payload only — never by a
+   later (or earlier, or concurrent) delivery; each delivery hands out the content sent in it; all consumers are
+   called in every delivery. *)
+Theorem fanout_session_noninterference : forall caps sls d ro c0 m,
+  nth_error (SessionProofs.deliveries sls) d = Some (ro, c0) ->
+  nth_error (srun (new_fan caps) sls) d = Some m ->
+  m = run (new_fan caps) ro c0 (SessionProofs.steps_for d 0 sls) /\
+  (forall i x, view m i = Some x -> x = own_view i (elog m) c0) /\
+  (forall i c r seen, In (ECall i c r seen) (elog m) -> seen = c0) /\
+  calls_of (elog m) = firstn (ncalls (SessionProofs.steps_for d 0 sls)) (call_order (new_fan caps)).
+Proof. exact SessionProofs.session_noninterference_l. Qed.
+Print Assumptions fanout_session_noninterference.
+
+(* ---- the decidable clause checker run on every observed case (Clauses.v) is sound and complete ------ *)
+(* prop_ok looks only at what the IMPLEMENTATION did (it does not run the model); it is true exactly when the
+   observed delivery satisfies the Prop-level clauses: every consumer invoked exactly once, content received = content
+   sent, error = aggregation, sharing only among non-mutating consumers and read-only, mutators get private mutable
+   data (the caller's own only if advertised), final content = own successful writes only, capability exact, declared
+   mutators never panic, the caller's context is passed through, payloads fresh per delivery. *)
+Theorem prop_ok_sound_complete : forall sig caps ro c0 errs ls o_cap o_evs o_final o_ro0 o_err,
+  Clauses.prop_ok (Harness.CFan sig caps ro c0 errs ls o_cap o_evs o_final o_ro0 o_err) = true <->
+  ClausesProofs.DeliveryClause (Clauses.mkDin caps ro c0 errs ls o_cap o_evs o_final o_err).
+Proof. exact ClausesProofs.prop_ok_fan_l. Qed.
+Print Assumptions prop_ok_sound_complete.
+
+Theorem prop_ok_session_sound_complete : forall sig caps script o,
+  Clauses.prop_ok (Harness.CSess sig caps script o) = true <->
+  List.length o = List.length (Clauses.sess_inputs caps script 0) /\
+  Forall ClausesProofs.DeliveryClause (Clauses.sess_dobs caps script o).
+Proof. exact ClausesProofs.prop_ok_sess_l. Qed.
+Print Assumptions prop_ok_session_sound_complete.
+
+(* the capability demanded by the checker is the model's fan_cap (= the translated source, fan_cap_is_source) *)
+Theorem clause_capability_is_model : forall caps, Clauses.spec_fan caps = fan_cap (new_fan caps).
+Proof. exact ClausesProofs.spec_fan_is_fan_cap_l. Qed.
+Print Assumptions clause_capability_is_model.
